@@ -44,6 +44,7 @@ struct Run<'a, W: Write> {
     out: &'a mut W,
     run: u64,
     form: usize,
+    any_form: Option<usize>,
 }
 
 /// the input form whose harness closure borrows the value (no clone, no collect)
@@ -62,9 +63,13 @@ impl<'a, W: Write> Run<'a, W> {
         v["run"] = json!(self.run);
         writeln!(self.out, "{}", v).unwrap();
     }
-    /// push through a reference-based form: the harness closure itself allocates nothing
+    /// push through a reference-based form (the harness closure itself allocates nothing, so the
+    /// allocator count is meaningful: `measured`) or, when `any_form` is given, through that form
+    /// (capacities are still compared; the count is not, because e.g. the owned-Vec form clones
+    /// its argument inside the closure)
     fn push(&mut self, slots: &mut [Box<dyn SlotT>], s: usize, v: &Value) -> bool {
-        let form = self.form;
+        let form = self.any_form.take().unwrap_or(self.form);
+        let measured = form == self.form;
         let cb = caps_of(&*slots[s]);
         let r = {
             let sl = &mut slots[s];
@@ -73,11 +78,11 @@ impl<'a, W: Write> Run<'a, W> {
         match r {
             Ok((_idx, n)) => {
                 let ca = caps_of(&*slots[s]);
-                self.ev(json!({"ev": "push", "s": s + 1, "v": v, "cb": cb, "ca": ca, "allocs": n, "panic": false}));
+                self.ev(json!({"ev": "push", "s": s + 1, "v": v, "cb": cb, "ca": ca, "allocs": n, "panic": false, "measured": measured, "form": form}));
                 true
             }
             Err(m) => {
-                self.ev(json!({"ev": "push", "s": s + 1, "v": v, "cb": cb, "ca": cb, "allocs": 0, "panic": true, "msg": m}));
+                self.ev(json!({"ev": "push", "s": s + 1, "v": v, "cb": cb, "ca": cb, "allocs": 0, "panic": true, "msg": m, "measured": measured, "form": form}));
                 false
             }
         }
@@ -100,7 +105,7 @@ pub fn cmd_run(seed: u64, runs_per_subject: usize, growth_log2: u32, out: &str) 
         if structural {
             for k in 0..runs_per_subject {
                 run += 1;
-                let mut r = Run { out: &mut w, run, form: borrowing_form(&subj.forms) };
+                let mut r = Run { out: &mut w, run, form: borrowing_form(&subj.forms), any_form: None };
                 let mut slots: Vec<Box<dyn SlotT>> = (0..3).map(|_| (subj.make)()).collect();
                 r.ev(json!({"ev": "reset", "subj": name, "plain": plain, "nslots": 3}));
                 // the target may already be populated
@@ -126,6 +131,9 @@ pub fn cmd_run(seed: u64, runs_per_subject: usize, growth_log2: u32, out: &str) 
                         }
                         r.ev(json!({"ev": "presize_items", "s": 3, "form": subj.reserve_forms[form], "batch": batch}));
                         for v in &batch {
+                            if rng.gen_bool(0.5) {
+                                r.any_form = Some(rng.gen_range(0..subj.forms.len()));
+                            }
                             if !r.push(&mut slots, 2, v) {
                                 break;
                             }
@@ -167,6 +175,9 @@ pub fn cmd_run(seed: u64, runs_per_subject: usize, growth_log2: u32, out: &str) 
                         }
                         let all: Vec<Value> = contents.concat();
                         for v in &all {
+                            if rng.gen_bool(0.5) {
+                                r.any_form = Some(rng.gen_range(0..subj.forms.len()));
+                            }
                             if !r.push(&mut slots, 2, v) {
                                 break;
                             }
@@ -185,7 +196,7 @@ pub fn cmd_run(seed: u64, runs_per_subject: usize, growth_log2: u32, out: &str) 
         // ---- growth without pre-sizing: n = 2^6 .. 2^growth_log2 items on every non-coded composition
         for lg in [6u32, growth_log2] {
             run += 1;
-            let mut r = Run { out: &mut w, run, form: borrowing_form(&subj.forms) };
+            let mut r = Run { out: &mut w, run, form: borrowing_form(&subj.forms), any_form: None };
             let mut slots: Vec<Box<dyn SlotT>> = vec![(subj.make)()];
             r.ev(json!({"ev": "reset", "subj": name, "plain": plain, "nslots": 1}));
             let n = 1usize << lg;
@@ -203,11 +214,11 @@ pub fn cmd_run(seed: u64, runs_per_subject: usize, growth_log2: u32, out: &str) 
                         let ca = caps_of(&*slots[0]);
                         // only the pushes that changed something are logged in full
                         if ca != cb || a != 0 {
-                            r.ev(json!({"ev": "push", "s": 1, "v": [], "cb": cb, "ca": ca, "allocs": a, "panic": false}));
+                            r.ev(json!({"ev": "push", "s": 1, "v": [], "cb": cb, "ca": ca, "allocs": a, "panic": false, "measured": true, "form": form}));
                         }
                     }
                     Err(m) => {
-                        r.ev(json!({"ev": "push", "s": 1, "v": [], "cb": cb, "ca": cb, "allocs": 0, "panic": true, "msg": m}));
+                        r.ev(json!({"ev": "push", "s": 1, "v": [], "cb": cb, "ca": cb, "allocs": 0, "panic": true, "msg": m, "measured": true, "form": form}));
                         alive = false;
                         break;
                     }
